@@ -564,7 +564,20 @@ def r12_guard_and_host_are_normalised_alike(ctx):
         ctx.ob('C07.R12', ob.key, ob.ok, ob.loc, ob.detail, ob.nontrivial)
 
 
+def r13_every_listed_module_is_imported(ctx):
+    ctx.rule('C07.R13', 'shared with C04.R6: `bp.routes(from![a, b])` registers the routes of every listed module — in `resolve_imports` whether a source is recorded '
+             'depends on the shape of the input only, never on a comparison with another source ("already covered by .."): a module that is dropped there has '
+             'no request handlers at all, and its requests are answered by the fallback.')
+    from .c04 import r6_every_import_resolved
+    from ..engine import Ctx
+    side = Ctx(ctx.prop, ctx.fb, ctx.tier)
+    r6_every_import_resolved(side)
+    for ob in side.obs:
+        ctx.ob('C07.R13', ob.key, ob.ok, ob.loc, ob.detail, ob.nontrivial)
+
+
 def check(ctx):
+    r13_every_listed_module_is_imported(ctx)
     r1_detectors_gate(ctx)
     r2_nesting(ctx)
     r3_fallback_tree(ctx)
